@@ -290,6 +290,12 @@ fn linearizable(init: &[Vec<u64>], done: &[Done]) -> bool {
 struct W {
     excl_get: bool,
     excl_concat: bool,
+    stress: Option<Arc<crate::props::c16s::StressFns>>,
+}
+
+/// one case in eight goes to the free-running engine (c16s.rs)
+fn is_stress(case: &Case) -> bool {
+    case.first().and_then(|c| c.first()).map(|b| b % 8 == 7).unwrap_or(false)
 }
 
 fn describe(cfg: &Config) -> String {
@@ -303,10 +309,22 @@ fn describe(cfg: &Config) -> String {
 
 impl WorkerState for W {
     fn render_only(&mut self, case: &Case) -> String {
+        if is_stress(case) {
+            return crate::props::c16s::describe(&case[0][1..]);
+        }
         describe(&decode(case))
     }
 
     fn run(&mut self, case: &Case, render: bool) -> Outcome {
+        if is_stress(case) {
+            if self.stress.is_none() {
+                match crate::props::c16s::build() {
+                    Ok(f) => self.stress = Some(Arc::new(f)),
+                    Err(e) => return Outcome::discard(format!("stress script rejected: {e}")),
+                }
+            }
+            return crate::props::c16s::run(self.stress.as_ref().unwrap(), &case[0][1..], render);
+        }
         let mut cfg = decode(case);
         let mut excluded = 0u64;
         if self.excl_get {
@@ -484,6 +502,6 @@ impl Prop for C16P {
         CaseShape::streams(&[40, 40])
     }
     fn worker(&self, excl: &[String]) -> Box<dyn WorkerState> {
-        Box::new(W { excl_get: excl.iter().any(|e| e == "C16-F1"), excl_concat: excl.iter().any(|e| e == "C16-F2") })
+        Box::new(W { excl_get: excl.iter().any(|e| e == "C16-F1"), excl_concat: excl.iter().any(|e| e == "C16-F2"), stress: None })
     }
 }
